@@ -101,6 +101,7 @@ func (c *Ctx) Mine(i int) bool {
 }
 
 var panicLoc = regexp.MustCompile(`github\.com/dave/dst[^\s(]*\.[A-Za-z0-9_.()*]+`)
+var argList = regexp.MustCompile(`\((0x[0-9a-f?]+|\.\.\.|[ ,{}]|0x\?)*\)$`)
 var hexNum = regexp.MustCompile(`0x[0-9a-f]+`)
 var ptrNum = regexp.MustCompile(`\(\*?[a-z.A-Z]+\)\(0x[0-9a-f]+\)`)
 
@@ -129,6 +130,7 @@ func PanicSignature(r interface{}, stack []byte) string {
 		}
 	}
 	fn = strings.TrimPrefix(fn, "github.com/dave/dst")
+	fn = argList.ReplaceAllString(fn, "")
 	return "panic:" + msg + " @ " + fn
 }
 
